@@ -577,6 +577,7 @@ Record cverdict := {
   cv_text_ok : bool;               (* render (prep tree) = sc_sql *)
   cv_model_sel : bool;             (* the model planners produce a SELECT *)
   cv_wrefs : bool;                 (* ... whose WithRefs carry the queries their aliases are bound to *)
+  cv_model_text : bool;            (* ... and whose text is the implementation's SQL, byte for byte *)
   cv_dbs : list dbverdict
 }.
 
@@ -595,6 +596,9 @@ Definition check_case (s : scase) : cverdict :=
      cv_text_ok := text_ok;
      cv_model_sel := match msel with Some _ => true | None => false end;
      cv_wrefs := match msel with Some m => wrefs_bound m | None => true end;
+     cv_model_text := match msel with
+                      | Some m => match render m (c_cluster c) with Some t => String.eqb t (sc_sql s) | None => false end
+                      | None => false end;
      cv_dbs := map (fun d =>
        let '(vi, got) := judge rg re pf jg hl tie_id fin q c d impl in
        let '(vr, _) := judge rg re pf jg hl tie_rev fin q c d impl in
